@@ -30,12 +30,25 @@ def _mod():
     return m
 
 
+STALE = b"\xa5" * 100000      # content of every output path before the call: a rebuild writes over a longer, older file
+
+
+def _stale(*paths):
+    for p in paths:
+        with open(p, "wb") as fh:
+            fh.write(STALE)
+
+
+def rewritten(path):
+    """True when the tool wrote to an output path that held the stale content before the call"""
+    return os.path.exists(path) and open(path, "rb").read() != STALE
+
+
 def impl_generate(tmp, vendor, cls, address, size, dp, iu, sv, via="lib"):
     """Returns {address: byte} read back from the written file; raises what the tool raises."""
     m = _mod()
     out = os.path.join(tmp, "gen.hex")
-    if os.path.exists(out):
-        os.remove(out)
+    _stale(out)
     if via == "main":
         m.main(mpi="generate", output_file=out, vendor_name=vendor, class_name=cls, address=address, size=size,
                downgrade_prevention_enabled=dp, independent_updates=iu, signature_verification=sv)
@@ -48,8 +61,7 @@ def impl_merge(tmp, address, size, files, via="main"):
     """files: None | list of HEX texts.  Returns {address: byte} of the output."""
     m = _mod()
     out = os.path.join(tmp, "merged.hex")
-    if os.path.exists(out):
-        os.remove(out)
+    _stale(out)
     paths = None
     if files is not None:
         paths = []
@@ -229,7 +241,7 @@ def check_generate(ck, tmp, stream, c, mres=None, via="lib"):
     else:
         if ires[0] == "ok":
             fail = "an unsupported signature verification policy was accepted"
-        elif os.path.exists(os.path.join(tmp, "gen.hex")):
+        elif rewritten(os.path.join(tmp, "gen.hex")):
             fail = "an output file was written although the policy was rejected"
     short = dict(c, vendor_name=c["vendor_name"][:40], class_name=c["class_name"][:40])
     ck.count(stream, tuple(sorted(c.items(), key=str)), nontrivial=valid, sample=short)
@@ -350,7 +362,7 @@ def merge_scenarios(ck):
 def check_merge(ck, tmp, stream, label, address, size, inputs, mres=None, files=None, via="main"):
     texts = files if files is not None else (None if inputs is None else [ihex.write_hex(d) for d in inputs])
     ires = core.Check.impl(impl_merge, tmp, address, size, texts, via)
-    fail = oracle_merge(address, size, inputs or [], ires, os.path.exists(os.path.join(tmp, "merged.hex")))
+    fail = oracle_merge(address, size, inputs or [], ires, rewritten(os.path.join(tmp, "merged.hex")))
     inp = {"op": "merge", "label": label, "address": address, "size": size, "via": via,
            "files": None if inputs is None else [[[s, d.hex()] for s, d in ihex.segments(m)] for m in inputs]}
     brief = {"label": label, "address": address, "size": size,
